@@ -50,8 +50,11 @@ theorem C02_gen_clamps :
     NodeOperatingState.T.ON.value = nodeOn ∧
     (ObsTables.nicEnabledCode, ObsTables.nicDisabledCode) = (nicEnabledCode, nicDisabledCode) ∧
     (ObsTables.portEnabledCode, ObsTables.portDisabledCode) = (nicEnabledCode, nicDisabledCode) ∧
-    ObsTables.nmneCaptureBranch = true ∧ ObsTables.nmneDefaultWhenNotCapturing = true ∧
-    ObsTables.nmneCaptureSource = "'nmne' in nic_state" ∧ ObsTables.nmneObserveReadsClassAttribute = false ∧
+    -- NMNE by CASES (shape-independent, replaces the source-text pins of rounds 3-6): the counters are read exactly when the
+    -- observation includes NMNE and the interface publishes them, into a dictionary created by this very call (never into the stored
+    -- default); zeros are reported exactly when NMNE is included and nothing is captured — what `NicObs.val` does
+    ObsTables.nmneTable = [true, false].flatMap (fun inc => [true, false].map (fun cap => (inc, cap, inc && cap, true, inc && !cap))) ∧
+    ObsTables.nmneObserveReadsClassAttribute = false ∧
     ObsTables.aclSlotRead = ["acl_items.get(i)"] := by
   decide
 
@@ -266,7 +269,9 @@ theorem FolderObs.health_lt {o : FolderObs} {f : FolderState} (ok : o.Ok) (wf : 
   cases o.scan
   · simpa using wf.1
   · cases f.scanned
-    · exact ok
+    · cases o.sameFolder f
+      · simpa using wf.2.1
+      · simpa [FolderObs.Ok] using ok
     · simpa using wf.2.1
 
 theorem C02_folder_in_space (o : FolderObs) (st : SimState) (w : WfState st) (ok : o.Ok) :
